@@ -346,7 +346,21 @@ static Plan generate (uint64_t seed)
             if (w < 15) s.op = "nextb";
             else if (w < 30) s.op = "nexti";
             else if (w < 45) s.op = "nextf";
-            else if (w < 60) { s.op = "nextfr"; s.a = pickBound (r, f32); s.b = pickBound (r, f32); }
+            else if (w < 60)
+            {
+                s.op = "nextfr"; s.a = pickBound (r, f32); s.b = pickBound (r, f32);
+                if (r.chance (0.2))
+                {
+                    // wide ranges: bounds of opposite sign up to the largest finite value (the interval is
+                    // representable although its width is not); in either order
+                    const double mx = f32 ? double (3.4028234663852886e+38f) : 1.7976931348623157e+308;
+                    static const double frac[] = {1.0, 1.0, 0.75, 0.5, 0.25, 1e-3};
+                    double x = mx * frac[r.below (6)], y = mx * frac[r.below (6)];
+                    if (f32) { x = double (float (x)); y = double (float (y)); }
+                    s.a = -x; s.b = y;
+                    if (r.chance (0.5)) std::swap (s.a, s.b);
+                }
+            }
             else if (w < 85 && enSamplers)
             {
                 int k2 = r.below (4);
@@ -554,9 +568,10 @@ template <class G> static std::string runSamplerV (const std::string& s, const s
 
 static inline double ulpOf (double x, bool isFloat)
 {
+    // spacing just below |x| (finite also for the largest finite value)
     x = std::fabs (x);
-    if (isFloat) { float f = float (x); return double (std::nextafter (f, INFINITY)) - double (f); }
-    return std::nextafter (x, INFINITY) - x;
+    if (isFloat) { float f = float (x); return f == 0 ? double (std::nextafter (0.0f, 1.0f)) : double (f) - double (std::nextafter (f, 0.0f)); }
+    return x == 0 ? std::nextafter (0.0, 1.0) : x - std::nextafter (x, 0.0);
 }
 
 template <class R> struct TwinState
@@ -603,7 +618,8 @@ static std::string twinStep (TwinState<R>& t, const Pair& q, int side, bool isFl
         t.draws[side]++;
         double lo = std::min (s.a, s.b), hi = std::max (s.a, s.b);
         double tol = 2 * ulpOf (std::max (std::fabs (s.a), std::fabs (s.b)), isFloat);
-        if (!(v >= lo - tol && v <= hi + tol)) { snprintf (buf, sizeof buf, "%s/nextf(a,b)/outside-interval", q.kind.c_str ()); bad = buf; }
+        if (!std::isfinite (v) || !(v >= lo - tol && v <= hi + tol)) { snprintf (buf, sizeof buf, "%s/nextf(a,b)/outside-interval", q.kind.c_str ()); bad = buf; }
+        if (std::fabs (s.a) > 1e30 && std::fabs (s.b) > 1e30) st.inc ("probe.nextf_range_wider_than_the_largest_finite_value");
     }
     else if (s.op == "init")
     {
